@@ -157,6 +157,23 @@ func c02LiteralSnippets() []string {
 	return out
 }
 
+// c02SplitCallSnippets: failing operations on locals whose parts stand on different lines (split after the dot,
+// after an operator, inside brackets or parentheses): the line reported is the line of the unfused instruction.
+func c02SplitCallSnippets() []string {
+	return []string{
+		"type T struct {\n\tF func() int\n}\nfunc g(p *T) int {\n\tx := p.\n\t\tF()\n\treturn x\n}\ny := g(&T{})\ny\n",
+		"type T struct {\n\tX int\n\tN *T\n}\nfunc g(p *T) int {\n\tx := p.\n\t\tN.\n\t\tX\n\treturn x\n}\ny := g(&T{})\ny\n",
+		"type T struct {\n\tX int\n}\nfunc (t *T) M(a int) int {\n\treturn t.X / a\n}\nfunc g(p *T, z int) int {\n\tx := p.\n\t\tM(z)\n\treturn x\n}\ny := g(&T{X: 1}, 0)\ny\n",
+		"func g(a int, b int) int {\n\tx := a /\n\t\tb\n\treturn x\n}\ny := g(1, 0)\ny\n",
+		"func g(a int, b int) int {\n\tx := a +\n\t\tb %\n\t\t\t(a - a)\n\treturn x\n}\ny := g(1, 2)\ny\n",
+		"func g(s []int, i int) int {\n\tx := s[\n\t\ti]\n\treturn x\n}\ny := g([]int{1}, 5)\ny\n",
+		"func g(s []int) int {\n\ts[\n\t\t7] = 1\n\treturn s[\n\t\t9]\n}\ny := g([]int{1})\ny\n",
+		"type T struct {\n\tX int\n}\nfunc g(p *T) int {\n\tp.\n\t\tX = 3\n\treturn p.\n\t\tX\n}\nvar q *T\ny := g(q)\ny\n",
+		"func h(a int) int {\n\treturn 10 / a\n}\nfunc g(z int) int {\n\tx := 1 +\n\t\th(\n\t\t\tz)\n\treturn x\n}\ny := g(0)\ny\n",
+		"func g(m map[string][]int, k string) int {\n\tv := m[k][\n\t\t3]\n\treturn v\n}\ny := g(map[string][]int{\"a\": {1}}, \"a\")\ny\n",
+	}
+}
+
 // c02Histories: one VM compiles more than once. What the optimizer knows when it compiles the
 // second text (values already in the global table, functions and types already defined) must not
 // show in what the second text does.
